@@ -195,6 +195,15 @@ func (b *cfgBuilder) notePureBool(s ast.Stmt) {
 	if !ok || !pureBoolExpr(as.Rhs[0]) {
 		return
 	}
+	switch unparen(as.Rhs[0]).(type) {
+	case *ast.Ident, *ast.SelectorExpr:
+		return
+	}
+	if t := b.p.TypeOf(as.Rhs[0]); t == nil {
+		return
+	} else if bt, isB := t.Underlying().(*types.Basic); !isB || bt.Info()&types.IsBoolean == 0 {
+		return
+	}
 	b.pendingObj, b.pendingRhs = b.p.ObjOf(id), as.Rhs[0]
 }
 
@@ -210,6 +219,10 @@ func pureBoolExpr(e ast.Expr) bool {
 		}
 	case *ast.UnaryExpr:
 		return x.Op == token.NOT && pureBoolExpr(x.X)
+	case *ast.Ident:
+		return true // a boolean operand of && / || / !
+	case *ast.SelectorExpr:
+		return noCalls(x)
 	}
 	return false
 }
